@@ -505,6 +505,24 @@ def _mapper_config(run, P):
                 other = [s_ for s_ in else_part(ed.node, n) if isinstance(s_, ast.Return)]
                 if other and "super().map_foreign" in ast.unparse(other[0]):
                     ok = True
+    if ok and n_empty > 1:
+        # one more kind of value answered "no variables".  A numeric array holds none; an array
+        # of objects holds expressions, which the interpreter evaluates entry by entry.
+        from .util import path_conditions
+        for n in ast.walk(ed.node):
+            if isinstance(n, ast.Return) and _is_empty_set(n.value):
+                conds = [t for t, pol in path_conditions(ed.node, n) if pol]
+                if any(_only_none_or_str(ast.parse(t, mode="eval").body, pname) for t in conds):
+                    continue
+                arr = [t for t in conds if "ndarray" in t]
+                if not arr:
+                    raise AnalysisError(f"map_foreign: the empty set is also returned under {conds}; not read")
+                run.ob("C08.mapper", ed, n, all("dtype" in t and "object" in t for t in arr),
+                       construct=f"map_foreign: an array is answered 'no variables' only if it is no array "
+                                 f"of objects (test: {arr[0][:70]})",
+                       why="an object array holds expressions (coefficients times a variable); their "
+                           "variables are read by the interpreter and have to be declared")
+        n_empty = 1
     run.ob("C08.mapper", ed, ed.node, ok and n_empty == 1,
            construct="map_foreign: exactly None/str -> empty set, else super()",
            why="time/None leaves of YieldState and string constants must not "
